@@ -54,7 +54,7 @@ class CallGraph:
         self.registry: dict[str, list[FnNode]] = {a: [] for a in REGISTRY_ATTRS}
         self._index()
         self.repo_attr_names = set(self.by_method) | set(self.by_getter) | set(self.by_setter)
-        for c in repo.classes.values():
+        for c in repo.cls_by_key.values():
             for f in list(c.methods.values()) + list(c.setters.values()) + list(c.getters.values()):
                 for x in ast.walk(f):
                     if isinstance(x, ast.Attribute) and isinstance(x.value, ast.Name) and x.value.id == "self" and x.attr.startswith("_"):
@@ -84,9 +84,7 @@ class CallGraph:
             for f in m.funcs.values():
                 self._add(m, f, None, "func")
             for cn in m.classes.values():
-                c = self.repo.classes.get(cn.name)
-                if c is None or c.node is not cn:
-                    c = Cls(m, cn)
+                c = self.repo.cls_by_key[(m.name, cn.name)]
                 for f in c.methods.values():
                     n = self._add(m, f, c, "method")
                     self.by_method.setdefault(f.name, []).append(n)
@@ -97,7 +95,7 @@ class CallGraph:
                     n = self._add(m, f, c, "setter")
                     self.by_setter.setdefault(f.name, []).append(n)
         # registries: class attributes such as `_field_func = staticmethod(BHJM_x)` / `get_trace = make_X`
-        for c in self.repo.classes.values():
+        for c in self.repo.cls_by_key.values():
             for a in REGISTRY_ATTRS:
                 if a in c.attrs:
                     v = c.attrs[a]
@@ -198,7 +196,7 @@ class CallGraph:
                             E.update(ts)
                             continue
                     if isinstance(recv, ast.Call) and isinstance(recv.func, ast.Name) and recv.func.id == "super" and n.cls is not None:
-                        for c in self.repo.mro(n.cls.name)[1:]:
+                        for c in self.repo.mro(n.cls)[1:]:
                             if meth in c.methods:
                                 E.add(self.fid_of(c.mod, c.methods[meth], c, "method"))
                                 break
